@@ -219,7 +219,11 @@ def run(ctx):
                     for k in params:
                         if 0 < k <= len(site.args):
                             root_feeders |= {o[5:] for o in fn_origins(la2, site.args[k - 1], 'adapters') if o.startswith('call:')}
-        walkers = [(g, c) for g, c in walkers if g.root().name not in root_feeders]
+        walkers = [(g, c) for g, c in walkers if g.root().name not in root_feeders] or walkers
+        # (helper-spliced form: both walkers sit in one body - the lister is the one whose root comes out of the other)
+        inner = [(g, c) for g, c in walkers if has(fn_origins(g, c.args[0], True), 'call:walkdir::WalkDir::new')]
+        if inner and len(inner) < len(walkers):
+            walkers = inner
         unb = [c for g, c in walkers if not any(g2 is g and has(fn_origins(g2, c2.args[0], True), 'call:walkdir::WalkDir::new') for g2, c2 in bounded)]
         if not news or (not walkers and not readdir):
             R.missing('b', 'list_all_in_dir: no directory walker (walkdir / read_dir) found feeding ImmutableFile::new')
@@ -351,11 +355,36 @@ def run(ctx):
                                 if si != 't' and rv2[0] == 'agg' and rv2[2] == 'std::option::Option' and rv2[4] == 'None':
                                     fallback += 1
         ret_is_map = lf2.ret.startswith('std::collections::btree::map::BTreeMap<')
+        # every map the function can return is keyed by the requested files: it derives from the `immutables` argument (directly, or
+        # as the provider's answer to it) - an empty / unrelated map on some path would silently drop files from the digest
+        carriers = body.ret_carriers()
+        unrelated = []
+        for l in carriers:
+            for (bi, si, pl2, rv2) in body.defs(l):
+                if pl2[1] or bi not in body.live():
+                    continue
+                if si == 't':
+                    if isinstance(rv2, tuple):
+                        continue
+                    og_ = set()
+                    for a_ in rv2.args:
+                        og_ |= fn_origins(lf2, a_, True)
+                    og_.add('call:' + rv2.best())
+                elif rv2[0] == 'use' and rv2[1][0] in ('copy', 'move') and rv2[1][1][0] in carriers:
+                    continue
+                else:
+                    og_ = set()
+                    for (l_, place_) in rvalue_reads(rv2):
+                        og_ |= fn_origins(lf2, ('copy', place_), True)
+                if not (has(og_, 'p#2') or has(og_, 'call:*ImmutableFileDigestCacheProvider::get')):
+                    unrelated.append('bb%d' % bi)
+        if unrelated:
+            fallback = 0
         if gets and fallback >= 1 and ret_is_map:
             R.ok('d', 'R1', 'fetch_immutables_cached: infallible; a cache read error falls back to the all-None map', '%d fallback builders' % fallback, ff.loc())
         else:
             R.violation('d', 'R1', 'fetch_immutables_cached: infallible; a cache read error falls back to the all-None map', 'fetch:fallback',
-                        'cache get sites %d, (file, None) builders %d, returns a map: %s' % (len(gets), fallback, ret_is_map), ff.loc())
+                        'cache get sites %d, (file, None) builders %d, returns a map: %s, returned maps not derived from the requested files: %s' % (len(gets), fallback, ret_is_map, unrelated), ff.loc())
     uf = ctx.try_fn('d', UPD)
     if uf is not None:
         lu = uf.logic()
